@@ -103,6 +103,7 @@ Definition find_d (cfg : config) (d : string) : option dcfg :=
 
 Definition has_lru (qc : qcfg) : bool := match q_lru qc with Some _ => true | None => false end.
 Definition has_slot (qc : qcfg) : bool := match q_slot qc with Some _ => true | None => false end.
+Definition memoised (qc : qcfg) : bool := has_lru qc || has_slot qc.
 Definition slot_keys (qc : qcfg) : list string := match q_slot qc with Some (_, ks) => ks | None => [] end.
 Definition slot_name (qc : qcfg) : list string := match q_slot qc with Some (s, _) => [s] | None => [] end.
 
@@ -112,6 +113,18 @@ Definition soft (cfg : config) : list fpat :=
 Definition writer_writes (cfg : config) : list fpat :=
   concat (map e_writes (filter e_is_writer (effects cfg))).
 Definition any_slot (cfg : config) : bool := existsb has_slot (queries cfg).
+
+(* the inventory entries of the nested calls of a query *)
+Definition dep_cfgs (cfg : config) (qc : qcfg) : list qcfg :=
+  concat (map (fun d => match find_q cfg (d_query d) with Some qd => [qd] | None => [] end) (q_deps qc)).
+Definition pat_covers (p' p : fpat) : bool :=
+  String.eqb (fst p') (fst p) &&
+  match snd p' with
+  | None => true
+  | Some k' => match snd p with Some k => String.eqb k' k | None => false end
+  end.
+Definition pats_cover (big small : list fpat) : bool :=
+  forallb (fun p => existsb (fun p' => pat_covers p' p) big) small.
 
 Definition fuel0 (cfg : config) : nat := S (fold_right Nat.max 0 (map q_rank (queries cfg))).
 
@@ -169,14 +182,29 @@ Definition failures (cfg : config) : list failure :=
   (* derived objects do not share the slot table *)
   (if any_slot cfg
    then map (fun dc => FShare (dv_name dc)) (filter dv_shares (derivs cfg)) else []) ++
-  (* by-products are never read by a query *)
-  concat (map (fun qc =>
-    concat (map (fun qw =>
-      if pats_overlap (q_reads qc) (q_writes qw) then [FWriteRead (q_name qw) (q_name qc)] else [])
-      (queries cfg)) ++
-    concat (map (fun dc =>
-      if pats_overlap (q_reads qc) (dv_parent_writes dc) then [FWriteRead (dv_name dc) (q_name qc)] else [])
-      (derivs cfg))) (queries cfg)) ++
+  (* by-products: (A) never read by a memoised query (its stored value must survive them);
+     (C) a nested call never writes what its caller or a sibling nested call reads;
+     (I) what a nested call writes is listed for its caller too *)
+  (concat (map (fun qc =>
+     if memoised qc then
+       concat (map (fun qw =>
+         if pats_overlap (q_reads qc) (q_writes qw) then [FWriteRead (q_name qw) (q_name qc)] else [])
+         (queries cfg)) ++
+       concat (map (fun dc =>
+         if pats_overlap (q_reads qc) (dv_parent_writes dc) then [FWriteRead (dv_name dc) (q_name qc)] else [])
+         (derivs cfg))
+     else []) (queries cfg)) ++
+   concat (map (fun qc =>
+     concat (map (fun qd2 =>
+       (if pats_overlap (q_reads qc) (q_writes qd2) then [FWriteRead (q_name qd2) (q_name qc)] else []) ++
+       concat (map (fun qd1 =>
+         if pats_overlap (q_reads qd1) (q_writes qd2) then [FWriteRead (q_name qd2) (q_name qd1)] else [])
+         (dep_cfgs cfg qc))) (dep_cfgs cfg qc))) (queries cfg)) ++
+   concat (map (fun qc =>
+     concat (map (fun qd =>
+       if pats_cover (q_writes qc) (q_writes qd) then []
+       else [FStructure ("by-products of nested call not listed for the caller " ++ q_name qc ++ " -> " ++ q_name qd)%string])
+       (dep_cfgs cfg qc))) (queries cfg))) ++
   (* queries, writers and derivations only add derived keys *)
   concat (map (fun qc => if forallb derived_pat (q_writes qc) then [] else [FProtected (q_name qc)])
               (queries cfg)) ++
